@@ -65,7 +65,9 @@ func (e *enumValidator) Err() string {
 
 	validator.GeneratorMemory[key] = true
 
-	enumList := strings.Join(e.enumValues, ", ")
+	// The list ends up inside a Go string literal (the Reason), so items containing
+	// a backslash or a double quote must be escaped.
+	enumList := strings.NewReplacer(`\`, `\\`, `"`, `\"`).Replace(strings.Join(e.enumValues, ", "))
 
 	const deprecationNoticeTemplate = `
 		// Deprecated: Use [@ERRVARIABLE]
